@@ -42,6 +42,7 @@ pub fn meta(tier: Tier) -> Meta {
             "tree_blocks_all_valid": if tier.is_thorough() { 5 } else { 4 },
             "invalid_kinds": ["Dao(contextual)", "TwoCellbases(non-contextual)", "Unproposed(contextual)"],
             "duplicate_patterns": 3,
+            "family_M": "main chain a1 a2 against a fork whose first block M commits a transaction nobody proposed (contextually invalid, every other field consistent) and has two child branches x1 x2 and w1 w2 built ON TOP OF M's state (valid but for their ancestor): every parent-first arrival order (thorough: every permutation of the 7 blocks)",
             "orphan_subtree_family": "every tree of 5 (thorough 6) blocks hanging under one block, that block delivered last after every permutation of the others",
             "gate_pattern": "trees of up to 3 blocks, every labelling and permutation: the service thread is held inside search_orphan_leader (between its two reads) until the verifier has finished the leader",
             "family_D": "dynamic-difficulty world, branches A (fast, 4x per-block difficulty in epoch 1) and B (slow): every topological interleaving of (a_len, b_len) in the listed shapes, plus B delivered in reverse (held as orphans)",
@@ -236,6 +237,12 @@ fn run_scenario(ctx: &Ctx, cons: &ckb_chain_spec::consensus::Consensus, m: &Mate
             // every delivery is answered or held as an orphan within milliseconds; a delivery that
             // is neither after 20 s means the chain service has stopped working (e.g. one of its
             // threads died): later blocks would never be adopted
+            if e.starts_with("verified-block sentinel answered Err") {
+                // the sentinel is block 1 of the stored main chain, delivered once more: the node
+                // itself says that a block of its main chain failed verification
+                viol(&mut report, "main-chain-block-answered-failed", format!("re-delivery of block 1 of the node's main chain is answered as a failed block: {e}"), step);
+                return Ok(report);
+            }
             if e.starts_with("no quiescence") {
                 viol(&mut report, "delivery-never-answered", format!("a delivered block got no verdict and is not held as an orphan 20 s after delivery: {e}"), step);
                 return Ok(report);
@@ -587,6 +594,14 @@ pub fn run(ctx: &Ctx) -> Report {
             report.outcomes.insert(1);
             return report;
         }
+        if v["family"] == "M" {
+            let perm: Vec<usize> = serde_json::from_value(v["perm"].clone()).expect("perm");
+            drop(u);
+            run_family_m(ctx, &mut report, Some(perm));
+            report.outcomes.insert(0);
+            report.outcomes.insert(1);
+            return report;
+        }
         if v["family"] == "S" {
             let sc: SchedCase = serde_json::from_value(v["case"].clone()).expect("case");
             let schedule: Vec<usize> = serde_json::from_value(v["schedule"].clone()).expect("schedule");
@@ -652,6 +667,9 @@ pub fn run(ctx: &Ctx) -> Report {
     }
     report.count("forge_audits", u.audited);
     drop(u);
+    if report.machinery_errors.is_empty() && report.cap_hit.is_none() && only.as_deref().map(|o| o == "M").unwrap_or(true) {
+        run_family_m(ctx, &mut report, None);
+    }
     if report.machinery_errors.is_empty() && report.cap_hit.is_none() && only.as_deref().map(|o| o == "D").unwrap_or(true) {
         run_dyn(ctx, &mut report, None);
     }
@@ -1046,4 +1064,100 @@ fn run_sched(ctx: &Ctx, u: &mut TreeUniverse, report: &mut Report) {
         }
     }
     report.max_counter("max_family_S_wall_ms_per_worker", t_s.elapsed().as_millis() as u64);
+}
+
+
+// ---------------------------------------------------------------------------------------
+// Family M: an invalid block in the middle of a fork whose descendants are consistent with it.
+// In family A the descendants of an invalid block are the valid tree's blocks re-parented, so they
+// fail their own contextual checks on top of the invalid block's state; here they are built on
+// top of it (by a node that was told to skip exactly the rule M breaks), so the ONLY thing that
+// keeps their chain off the main chain is the verdict on M.  Main chain a1 a2 (work 2); M commits
+// a transaction nobody proposed; branches M x1 x2 and M w1 w2 (work 3 each).
+
+fn build_family_m(ctx: &Ctx, cons: &ckb_chain_spec::consensus::Consensus) -> Result<(Materialised, Vec<usize>), String> {
+    use crate::forge::*;
+    use ckb_verification_traits::Switch;
+    let dir = ctx.scratch.join("forge-m");
+    let _ = std::fs::remove_dir_all(&dir);
+    set_time(time_for_height(12));
+    let node = Node::boot(&dir, &NodeOpts::new(cons.clone()))?;
+    node.wait_startup()?;
+    let genesis = cons.genesis_hash();
+    let build = |node: &Node, spec: &BlockSpec| -> Result<BlockView, String> {
+        let snap = std::sync::Arc::clone(&node.shared.snapshot());
+        assemble(&snap, spec)
+    };
+    let a1 = build(&node, &BlockSpec { miner: 1, ts_offset: 1, ..Default::default() })?;
+    node.process(&a1).map_err(|e| format!("a1: {e}"))?;
+    let a2 = build(&node, &BlockSpec { miner: 1, ts_offset: 1, ..Default::default() })?;
+    node.process(&a2).map_err(|e| format!("a2: {e}"))?;
+    node.chain().truncate(genesis.clone()).map_err(|e| e.to_string())?;
+    let cells = genesis_cells(cons);
+    let tx = simple_tx(cons, &cells[0..1], 1, 1_000, 77);
+    let m = build(&node, &BlockSpec { miner: 2, ts_offset: 2, txs: vec![tx], ..Default::default() })?;
+    // ground truth: refused under full verification ...
+    if node.process(&m).is_ok() {
+        return Err("family M: the block committing an unproposed transaction was accepted".into());
+    }
+    // ... whatever the refusal leaves behind stays with that node: the descendants are built by a
+    // fresh one
+    node.destroy();
+    let _ = std::fs::remove_dir_all(&dir);
+    let node = Node::boot(&dir, &NodeOpts::new(cons.clone()))?;
+    node.wait_startup()?;
+    node.chain().blocking_process_block_with_switch(std::sync::Arc::new(m.clone()), Switch::DISABLE_TWO_PHASE_COMMIT).map_err(|e| format!("M with the two-phase-commit rule off: {e}"))?;
+    if node.tip().hash() != m.hash() {
+        return Err("family M: the builder did not adopt M".into());
+    }
+    let mut branch = |miner: u8| -> Result<(BlockView, BlockView), String> {
+        if node.tip().hash() != m.hash() {
+            node.chain().truncate(m.hash()).map_err(|e| e.to_string())?;
+        }
+        let b1 = build(&node, &BlockSpec { miner, ts_offset: miner as u64, ..Default::default() })?;
+        node.process(&b1).map_err(|e| format!("child of M refused by the builder: {e}"))?;
+        let b2 = build(&node, &BlockSpec { miner, ts_offset: miner as u64, ..Default::default() })?;
+        node.process(&b2).map_err(|e| format!("grandchild of M refused by the builder: {e}"))?;
+        Ok((b1, b2))
+    };
+    let (x1, x2) = branch(3)?;
+    let (w1, w2) = branch(4)?;
+    node.destroy();
+    let blocks = vec![a1, a2, m, x1, x2, w1, w2];
+    let pv = vec![0usize, 1, 0, 3, 4, 3, 6];
+    Ok((Materialised { blocks, self_valid: vec![true, true, false, true, true, true, true] }, pv))
+}
+
+fn run_family_m(ctx: &Ctx, report: &mut Report, only: Option<Vec<usize>>) {
+    let cons = consensus(&WorldOpts::default());
+    let (m, pv) = match build_family_m(ctx, &cons) {
+        Ok(x) => x,
+        Err(e) => {
+            report.machinery_errors.push(format!("family M universe: {e}"));
+            return;
+        }
+    };
+    let before = |perm: &[usize], a: usize, b: usize| perm.iter().position(|x| *x == a).unwrap() < perm.iter().position(|x| *x == b).unwrap();
+    let perms: Vec<Vec<usize>> = match only {
+        Some(p) => vec![p],
+        None => permutations(7).into_iter().filter(|perm| ctx.tier.is_thorough() || (before(perm, 0, 1) && before(perm, 2, 3) && before(perm, 3, 4) && before(perm, 2, 5) && before(perm, 5, 6))).collect(),
+    };
+    for (idx, perm) in perms.iter().enumerate() {
+        if ctx.replay.is_none() && !ctx.mine(idx as u64) {
+            continue;
+        }
+        if ctx.out_of_time() {
+            report.cap_hit = Some(format!("wall budget reached in family M at order {idx} of {}", perms.len()));
+            return;
+        }
+        let label = json!({"family": "M", "perm": perm, "blocks": ["a1", "a2", "M", "x1", "x2", "w1", "w2"]});
+        match run_scenario(ctx, &cons, &m, &pv, perm, false, "M", &label, fp(&("M", perm)), idx as u64 * 997 + 1) {
+            Ok(r) => report.merge(r),
+            Err(e) => {
+                report.machinery_errors.push(format!("family M order {perm:?}: {e}"));
+                return;
+            }
+        }
+        report.count("family_M_runs", 1);
+    }
 }
